@@ -82,7 +82,7 @@ Spec == Init /\ [][Next]_mvars
 
 (* ---- the contract, checked on the mechanism ---- *)
 InArena == \A b \in DOMAIN live : 0 <= live[b].lo /\ live[b].hi <= Arena
-Bound == nb <= 6
+Bound == nb <= 5
 (* every step of the mechanism is a step the contract allows *)
 ContractStep ==
     \/ \E b \in DOMAIN live' \ DOMAIN live :
